@@ -165,12 +165,13 @@ def run_rate(prog: Program, roles, sizes: Sequence[int], levels: Optional[Sequen
         kwargs["tau"] = Num(kinds=frozenset({"float"}), sym=("param", "g.tau"))
     I.events.clear()
     I.raises.clear()
+    I.open_cmps.clear()
     with sym_cap(TERM_CAP):
         res = w.call(m, "rate", [game], kwargs)
     return GameRun(roles.short, tuple(sizes), tuple(order), w, players, res, list(I.undecided), list(I.raises), bool(w.state.bottom), prior)
 
 
-def run_predict(prog: Program, roles, op: str, sizes: Sequence[int], order: Optional[Sequence[int]] = None, opaque=CORRECTIONS) -> GameRun:
+def run_predict(prog: Program, roles, op: str, sizes: Sequence[int], order: Optional[Sequence[int]] = None, opaque=CORRECTIONS, rels=()) -> GameRun:
     w = World(prog, roles, Box())
     I = w.I
     I.number_locals = True
@@ -181,8 +182,11 @@ def run_predict(prog: Program, roles, op: str, sizes: Sequence[int], order: Opti
     m = w.make_model(custom_gamma=False)
     order = list(order) if order is not None else list(range(len(sizes)))
     game, players = build_game(w, sizes, order)
+    for a_, b_, r_ in rels:
+        w.state.rel_set(a_, b_, frozenset({r_}))
     I.events.clear()
     I.raises.clear()
+    I.open_cmps.clear()
     with sym_cap(TERM_CAP):
         res = w.call(m, op, [game], {})
     return GameRun(roles.short, tuple(sizes), tuple(order), w, players, res, list(I.undecided), list(I.raises), bool(w.state.bottom))
@@ -652,6 +656,102 @@ def add_instances(rep, job_fn, jobs, rule: str, floor: int) -> None:
 # predictions on explicit games
 # ---------------------------------------------------------------------------------------------------------------------
 
+LAST_RUN: List[Any] = [None]  # the run behind the last win_terms / rank_terms / draw_term call (for case splitting)
+
+
+def open_compares(run) -> List[Tuple[Any, Any]]:
+    """Comparisons between two input-dependent terms that a branch of the run could not decide (candidates for a case split)."""
+    out = []
+    if run is None:
+        return out
+    for a, b in run.world.I.open_cmps:
+        if a[0] != "const" and b[0] != "const" and (a, b) not in out and (b, a) not in out:  # not against a constant: the sign domain of the inputs is not modelled here
+            out.append((a, b))
+    for ev in run.world.I.events:
+        if ev.kind != "branch" or ev.data.get("tv") is not None:
+            continue
+        v = ev.data.get("val")
+        s = getattr(v, "sym", None)
+        if isinstance(v, Bool) and isinstance(s, tuple) and len(s) == 4 and s[0] == "cmp" and s[2] is not None and s[3] is not None:
+            a, b = s[2], s[3]
+            if a[0] != "const" and b[0] != "const":
+                if (a, b) not in out and (b, a) not in out:
+                    out.append((a, b))
+    return out
+
+
+def _poly_to_sym(p: Poly):
+    """A polynomial over plain parameter atoms back into a term (None when it contains anything else)."""
+    terms = []
+    for mono, c in sorted(p.items(), key=repr):
+        t = ("const", c.numerator) if c.denominator == 1 else ("div", ("const", c.numerator), ("const", c.denominator))
+        for at, e in mono:
+            if not (isinstance(at, tuple) and len(at) == 2 and at[0] == "param") or e.denominator != 1 or e < 1:
+                return None
+            for _ in range(int(e)):
+                t = ("mul", t, at)
+        terms.append(t)
+    if not terms:
+        return ("const", 0)
+    out = terms[0]
+    for t in terms[1:]:
+        out = ("add", out, t)
+    return out
+
+
+def equation_substitution(rels):
+    """atom map realising the assumed equations a == b: each equation that is linear in some parameter atom with coefficient +-1
+    is solved for that atom. Returns (atom_map, number of equations not solved)."""
+    subst: Dict[Any, Any] = {}
+    unsolved = 0
+    for a, b, r in rels:
+        if r != "EQ":
+            continue
+        amap = (lambda s, _m=dict(subst): _m.get(s, s)) if subst else None
+        pa, pb = to_poly(a, amap), to_poly(b, amap)
+        if pa is None or pb is None:
+            unsolved += 1
+            continue
+        d = p_add(pa, pb, -1)
+        if not d:
+            continue
+        cand = None
+        for mono, c in sorted(d.items(), key=repr, reverse=True):
+            if len(mono) == 1 and mono[0][1] == 1 and isinstance(mono[0][0], tuple) and mono[0][0][0] == "param" and abs(c) == 1:
+                x = mono[0][0]
+                if not any(_mentions_atom(m2, {x[1]}) for m2 in d if m2 != mono):
+                    cand = (x, c, mono)
+                    break
+        if cand is None:
+            unsolved += 1
+            continue
+        x, c, mono = cand
+        rest = {m2: -c2 / c for m2, c2 in d.items() if m2 != mono}
+        sym = _poly_to_sym(rest)
+        if sym is None:
+            unsolved += 1
+            continue
+        subst[x] = sym
+    if not subst:
+        return None, unsolved
+    return (lambda s, _m=subst: _m.get(s, s)), unsolved
+
+
+def case_split(term_fn, depth: int = 2, rels=()):
+    """Leaves of the finite case analysis: term_fn(rels) -> (value, problem); when the run behind it left a comparison between two
+    input terms open, the three relations are assumed in turn (3-point order domain), up to `depth` comparisons deep."""
+    val, bad = term_fn(rels)
+    run = LAST_RUN[0]
+    opens = [p for p in open_compares(run) if not any((p[0] == r[0] and p[1] == r[1]) or (p[0] == r[1] and p[1] == r[0]) for r in rels)]
+    if val is not None or not opens or depth == 0:
+        return [(tuple(rels), val, bad)]
+    out = []
+    a, b = opens[0]
+    for rel in ("LT", "EQ", "GT"):
+        out.extend(case_split(term_fn, depth - 1, tuple(rels) + ((a, b, rel),)))
+    return out
+
+
 PRED_SIZES = [(1, 1), (2, 1), (1, 1, 1), (1, 2, 1)]
 PRED_THOROUGH = [(1, 1, 1, 1), (2, 1, 1, 2)]
 
@@ -675,9 +775,10 @@ def _rename_team(i_from: int, i_to: int):
     return fn
 
 
-def win_terms(prog, roles, sizes, order=None, atom_map=None):
+def win_terms(prog, roles, sizes, order=None, atom_map=None, rels=()):
     """(terms by team identity, problem)"""
-    run = run_predict(prog, roles, "predict_win", sizes, order)
+    run = run_predict(prog, roles, "predict_win", sizes, order, rels=rels)
+    LAST_RUN[0] = run
     bad = run.ok()
     if bad:
         return None, bad
@@ -761,8 +862,8 @@ def c09_job(job) -> List[Dict[str, Any]]:
     return out
 
 
-def draw_term(prog, roles, sizes, order=None, player_order=None):
-    w_run = run_predict(prog, roles, "predict_draw", sizes, order) if player_order is None else None
+def draw_term(prog, roles, sizes, order=None, player_order=None, atom_map=None, rels=()):
+    w_run = run_predict(prog, roles, "predict_draw", sizes, order, rels=rels) if player_order is None else None
     if w_run is None:
         # players of one team exchanged: build the game by hand
         w = World(prog, roles, Box())
@@ -779,10 +880,12 @@ def draw_term(prog, roles, sizes, order=None, player_order=None):
         with sym_cap(TERM_CAP):
             res = w.call(m, "predict_draw", [game], {})
         w_run = GameRun(roles.short, tuple(sizes), tuple(order or range(len(sizes))), w, players, res, list(I.undecided), list(I.raises), bool(w.state.bottom))
+    LAST_RUN[0] = w_run
     bad = w_run.ok()
     if bad:
         return None, bad
-    p = poly_of(w_run.result)
+    rv = w_run.result
+    p = to_poly(rv.sym, atom_map) if isinstance(rv, Num) and rv.sym is not None else poly_of(rv)
     if p is None:
         return None, f"the result has no term ({short(w_run.result)[:100]})"
     return p, ""
@@ -880,8 +983,9 @@ def zero_up_to_abs(p: Poly) -> Optional[bool]:
     return None if undec else False
 
 
-def rank_terms(prog, roles, sizes, order=None):
-    run = run_predict(prog, roles, "predict_rank", sizes, order)
+def rank_terms(prog, roles, sizes, order=None, atom_map=None, rels=()):
+    run = run_predict(prog, roles, "predict_rank", sizes, order, rels=rels)
+    LAST_RUN[0] = run
     bad = run.ok()
     if bad:
         return None, bad
@@ -897,7 +1001,8 @@ def rank_terms(prog, roles, sizes, order=None):
     for pos, x in enumerate(items):
         if not (isinstance(x, TupleV) and len(x.items) == 2):
             return None, ("shape", f"result[{pos}] is not a (rank, probability) pair ({short(x)[:80]})")
-        p = poly_of(x.items[1])
+        pv = x.items[1]
+        p = to_poly(pv.sym, atom_map) if isinstance(pv, Num) and pv.sym is not None else poly_of(pv)
         if p is None:
             return None, f"the probability at result[{pos}] has no term"
         out[run.order[pos]] = p
@@ -1086,6 +1191,7 @@ def run_rate_model(prog, roles, sizes, levels, *, tau_arg: bool, limit_arg: Opti
         kwargs["limit_sigma"] = Bool(bool(limit_arg), frozenset(), None)
     I.events.clear()
     I.raises.clear()
+    I.open_cmps.clear()
     with sym_cap(TERM_CAP):
         res = w.call(m, "rate", [game_], kwargs)
     return GameRun(roles.short, tuple(sizes), tuple(range(len(sizes))), w, players, res, list(I.undecided), list(I.raises), bool(w.state.bottom))
@@ -1149,6 +1255,7 @@ def _run_predict_seeded(prog, roles, op, sizes, rels):
         w.state.rel_set(a, b, frozenset({r}))
     I.events.clear()
     I.raises.clear()
+    I.open_cmps.clear()
     with sym_cap(TERM_CAP):
         res = w.call(m, op, [game_], {})
     return GameRun(roles.short, tuple(sizes), tuple(range(len(sizes))), w, players, res, list(I.undecided), list(I.raises), bool(w.state.bottom))
